@@ -65,6 +65,7 @@ package ocsp
 //@   ensures [last] result.Result == serverResults[len(serverResults)-1].Result
 
 //@ func postRequest(ctx, req, server, httpClient)
+//@   maypanic
 //@   requires httpClient != nil
 //@   calls Client.Do
 //@   ensures [one-exchange] ncalls(Client.Do) <= old(ncalls(Client.Do)) + 1
@@ -73,6 +74,7 @@ package ocsp
 
 // one HTTP exchange for (cert, issuer); every failure is an error that is none of the decisive classes
 //@ func executeOCSPCheck(ctx, cert, issuer, server, opts)
+//@   maypanic
 //@   requires cert != nil && issuer != nil && opts.HTTPClient != nil
 //@   calls Client.Do
 //@   ensures [one-exchange] ncalls(Client.Do) <= old(ncalls(Client.Do)) + 1
@@ -87,6 +89,7 @@ package ocsp
 //@     invariant forall key string :: has(extensionMap, key) ==> (exists k :: 0 <= k && k < it && extensions[k].Id.String() == key && extensionMap[key] == extensions[k].Value)
 
 //@ func checkStatusFromServer(ctx, cert, issuer, server, opts)
+//@   maypanic
 //@   props C04 C06
 //@   requires cert != nil && issuer != nil && opts.HTTPClient != nil && cert.SerialNumber != nil
 //@   calls Client.Do
@@ -100,6 +103,7 @@ package ocsp
 
 // stmt C04 + C12 shape: servers tried in order; the first decisive answer is the only server result
 //@ func CertCheckStatus(ctx, cert, issuer, opts)
+//@   maypanic
 //@   props C04 C06 C11 C12
 //@   requires issuer != nil && opts.HTTPClient != nil
 //@   requires cert != nil ==> cert.SerialNumber != nil
